@@ -20,6 +20,8 @@ CONSTANTS
   Deviations = {"F12", "F14"}
   MaxApps = 0
   MaxSucc = 6
+  CapX = {}
+  CapY = {}
   Depth = 130
   BootSize = 7
   WProgress = 66
